@@ -20,7 +20,7 @@ theorem valid_lt {lh : LHeap} {id : Nat} {n : LN} (h : lh[id]? = some n) : id < 
   · rw [List.getElem?_eq_none (by omega)] at h; cases h
 
 /-- lookups below node `x` only depend on the nodes whose absolute prefix extends `full x` -/
-theorem look_below {L : Nat} {lh lh' : LHeap} {full : Nat → Key} (hok : LOk L lh full) {x : Nat}
+theorem look_below {L : Nat} {E : Enc L} {lh lh' : LHeap} {full : Nat → Key} (hok : LOk E lh full) {x : Nat}
     (hx : x < lh.length)
     (hagree : ∀ y, y < lh.length → full x <+: full y → lh'[y]? = lh[y]?) (t : Key) :
     look lh' x t = look lh x t := by
@@ -31,7 +31,7 @@ theorem look_below {L : Nat} {lh lh' : LHeap} {full : Nat → Key} (hok : LOk L 
   · intro y ⟨h1, h2⟩; exact hagree y h1 h2
   · exact ⟨hx, List.prefix_refl _⟩
 
-theorem kid_full_longer {L : Nat} {lh : LHeap} {full : Nat → Key} (hok : LOk L lh full) {id x : Nat} {n : LN}
+theorem kid_full_longer {L : Nat} {E : Enc L} {lh : LHeap} {full : Nat → Key} (hok : LOk E lh full) {id x : Nat} {n : LN}
     (hn : lh[id]? = some n) (hx : x ∈ n.kids) : (full id).length < (full x).length := by
   obtain ⟨nc, g1, g2, g3⟩ := hok.kid id n x hn hx
   rw [g3, List.length_append]
@@ -39,7 +39,7 @@ theorem kid_full_longer {L : Nat} {lh : LHeap} {full : Nat → Key} (hok : LOk L
   omega
 
 /-- nothing at or above `id` lies below a child of `id` -/
-theorem not_below_kid {L : Nat} {lh : LHeap} {full : Nat → Key} (hok : LOk L lh full) {id x y : Nat} {n : LN}
+theorem not_below_kid {L : Nat} {E : Enc L} {lh : LHeap} {full : Nat → Key} (hok : LOk E lh full) {id x y : Nat} {n : LN}
     (hn : lh[id]? = some n) (hx : x ∈ n.kids) (hy : (full y).length ≤ (full id).length) : ¬ full x <+: full y := by
   intro h
   have := h.length_le
@@ -47,7 +47,7 @@ theorem not_below_kid {L : Nat} {lh : LHeap} {full : Nat → Key} (hok : LOk L l
   omega
 
 /-- descending into a child that keeps its key and entry, given the relation for the child's lookups -/
-theorem gen_desc {L : Nat} {lh lh' : LHeap} {full : Nat → Key} {K : Key} {e : Ent} (hok : LOk L lh full)
+theorem gen_desc {L : Nat} {E : Enc L} {lh lh' : LHeap} {full : Nat → Key} {K : Key} {e : Ent} (hok : LOk E lh full)
     {id x : Nat} {n nx nx' : LN} (hn : lh[id]? = some n) (hx : x ∈ n.kids) (hnx : lh[x]? = some nx)
     (hnx' : lh'[x]? = some nx') (hk : nx'.key = nx.key) (he : nx'.ent = nx.ent) (s : Key)
     (hs : (full id).length + s.length = L)
@@ -85,7 +85,7 @@ theorem gen_desc {L : Nat} {lh lh' : LHeap} {full : Nat → Key} {K : Key} {e : 
 
 /-- one generic step of the universal induction: the node keeps its record; every child keeps its first
     symbol; for the children that the scan can hit a relation for the descent is given -/
-theorem gen_step {L : Nat} {lh lh' : LHeap} {full : Nat → Key} {K : Key} {e : Ent} (hok : LOk L lh full)
+theorem gen_step {L : Nat} {E : Enc L} {lh lh' : LHeap} {full : Nat → Key} {K : Key} {e : Ent} (hok : LOk E lh full)
     {id : Nat} {n : LN} (hn : lh[id]? = some n) (hn' : lh'[id]? = some n) (s0 : Nat) (st : Key)
     (hheads : ∀ x ∈ n.kids, ∀ c0, Hd lh x c0 → Hd lh' x c0)
     (hdesc : ∀ x ∈ n.kids, ∀ nx nx', lh[x]? = some nx → lh'[x]? = some nx' → ∀ i i',
@@ -110,7 +110,7 @@ theorem get_sa_new1 {α : Type} (lh : List α) (a a2 : α) (rest : List α) (b :
     ((lh ++ a :: a2 :: rest).set m b)[lh.length + 1]? = some a2 := by grind
 
 /-- **adding the cache leaf under node `m`**: the relation holds for every node of the old heap -/
-theorem ins_leaf_univ {L : Nat} {lh : LHeap} {full : Nat → Key} (hok : LOk L lh full) {m : Nat} {cn : LN}
+theorem ins_leaf_univ {L : Nat} {E : Enc L} {lh : LHeap} {full : Nat → Key} (hok : LOk E lh full) {m : Nat} {cn : LN}
     (hm : lh[m]? = some cn) {k0 : Nat} {kt : Key} {pre post : List Nat} (hkids : cn.kids = pre ++ post)
     (hpre : ∀ x ∈ pre, HdLt lh k0 x)
     (hpost : post = [] ∨ ∃ c ch c0 ct rest, post = c :: rest ∧ lh[c]? = some ch ∧ ch.key = c0 :: ct ∧ k0 < c0)
@@ -196,7 +196,7 @@ theorem head_take {c0 : Nat} {ct : Key} {j : Nat} (hj : 0 < j) : ∃ ct', (c0 ::
 
 /-- **splitting node `c` in place** (the cache leaf shares a proper prefix with `c`'s key): the relation holds
     for every node of the old heap other than `c` itself (whose key, hence absolute position, changes) -/
-theorem ins_split_univ {L : Nat} {lh : LHeap} {full : Nat → Key} (hok : LOk L lh full) {c : Nat} {ch : LN}
+theorem ins_split_univ {L : Nat} {E : Enc L} {lh : LHeap} {full : Nat → Key} (hok : LOk E lh full) {c : Nat} {ch : LN}
     (hc : lh[c]? = some ch) {P k : Key} (hP : full c = P ++ ch.key) (hlen : P.length + k.length = L)
     (hj0 : 0 < lcp ch.key k) (hj1 : lcp ch.key k < ch.key.length) (hj2 : lcp ch.key k < k.length)
     {tk : List Nat}
@@ -290,9 +290,9 @@ theorem ins_split_univ {L : Nat} {lh : LHeap} {full : Nat → Key} (hok : LOk L 
 /-- sponsor-or-self: new nodes are attributed to an old node -/
 def spo (n0 : Nat) (sp : Nat → Nat) (id : Nat) : Nat := if id < n0 then id else sp id
 
-structure InsPost (L : Nat) (lh : LHeap) (full : Nat → Key) (cur : Nat) (key : Key) (data : Option Data)
+structure InsPost {L : Nat} (E : Enc L) (lh : LHeap) (full : Nat → Key) (cur : Nat) (key : Key) (data : Option Data)
     (lh' : LHeap) (full' : Nat → Key) : Prop where
-  ok : LOk L lh' full'
+  ok : LOk E lh' full'
   len : lh.length ≤ lh'.length
   pfx : ∀ id, id < lh.length → full' id <+: full id
   /-- every lookup from every old node (that keeps its position) is unchanged, except that the inserted key is found -/
@@ -313,12 +313,13 @@ theorem get_sa_none {α : Type} (lh : List α) (news : List α) (b : α) (m id :
   rw [List.getElem?_eq_none_iff]; simp; omega
 
 /-- the base case "append / insert a leaf under `m`" -/
-theorem ins_leaf_post {L : Nat} {lh : LHeap} {full : Nat → Key} (hok : LOk L lh full) {m : Nat} {cn : LN}
+theorem ins_leaf_post {L : Nat} {E : Enc L} {lh : LHeap} {full : Nat → Key} (hok : LOk E lh full) {m : Nat} {cn : LN}
     (hm : lh[m]? = some cn) {k0 : Nat} {kt : Key} {pre post : List Nat} (hkids : cn.kids = pre ++ post)
     (hpre : ∀ x ∈ pre, HdLt lh k0 x)
     (hpost : post = [] ∨ ∃ c ch c0 ct rest, post = c :: rest ∧ lh[c]? = some ch ∧ ch.key = c0 :: ct ∧ k0 < c0)
-    (hlen : (full m).length + (k0 :: kt).length = L) (data : Option Data) :
-    InsPost L lh full m (k0 :: kt) data
+    (hlen : (full m).length + (k0 :: kt).length = L) (data : Option Data)
+    (hdata : ∃ d, data = some d ∧ E.enc d.addr = full m ++ k0 :: kt) :
+    InsPost E lh full m (k0 :: kt) data
       ((lh ++ [lleaf (k0 :: kt) 0 data]).set m { cn with kids := pre ++ lh.length :: post })
       (fun id => if id = lh.length then full m ++ k0 :: kt else full id) := by
   have huniv := ins_leaf_univ hok hm hkids hpre hpost hlen 0 data
@@ -357,7 +358,19 @@ theorem ins_leaf_post {L : Nat} {lh : LHeap} {full : Nat → Key} (hok : LOk L l
       · by_cases e3 : id = lh.length
         · subst e3; rw [hnew] at h; cases h; exact Or.inr (Or.inl ⟨rfl, rfl⟩)
         · rw [hnone id (by omega)] at h; cases h
-  refine ⟨⟨?_, ?_⟩, by omega, ?_, ?_, ?_, ?_, ?_, hheads, ?_⟩
+  have hdyekeep : ∀ (x : Nat) (nx nx' : LN), lh[x]? = some nx → lh'[x]? = some nx' → nx'.dye = nx.dye := by
+    intro x nx nx' h1 h2
+    obtain ⟨nx'', g1, _, g3⟩ := hkeep x nx h1
+    rw [h2] at g1; cases g1
+    exact congrArg Ent.dye g3
+  have hkidold : ∀ c, c ∈ pre ++ lh.length :: post → c ≠ lh.length → c ∈ cn.kids := by
+    intro c hc e
+    rw [hkids]; simp only [List.mem_append, List.mem_cons] at hc ⊢
+    rcases hc with h | h | h
+    · exact Or.inl h
+    · exact absurd h e
+    · exact Or.inr h
+  refine ⟨⟨?_, ?_, ?_, ?_, ?_⟩, by omega, ?_, ?_, ?_, ?_, ?_, hheads, ?_⟩
   · -- LOk.kid
     intro id n c hn hc
     rcases hcls id n hn with ⟨rfl, rfl⟩ | ⟨rfl, rfl⟩ | ⟨h1, h2, h3⟩
@@ -388,6 +401,43 @@ theorem ins_leaf_post {L : Nat} {lh : LHeap} {full : Nat → Key} (hok : LOk L l
     · rw [hfold id hmlt]; exact hok.depth id cn hm
     · simp only [if_true, List.length_append]; omega
     · rw [hfold id h1]; exact hok.depth id n h3
+  · -- LOk.sorted
+    intro id n hn
+    rcases hcls id n hn with ⟨rfl, rfl⟩ | ⟨rfl, rfl⟩ | ⟨h1, h2, h3⟩
+    · have h0 := (hok.sorted id cn hm).transfer (lh' := lh') (fun x _ c0 h => hheads x c0 h)
+      rw [hkids] at h0
+      apply h0.insert ⟨_, kt, hnew, rfl⟩
+      · intro y hy
+        obtain ⟨c0, g1, g2⟩ := hpre y hy
+        exact ⟨c0, hheads y c0 g1, g2⟩
+      · rcases hpost with h | ⟨c, ch, c0, ct, rest, q0, q1, q2, q3⟩
+        · exact Or.inl h
+        · obtain ⟨ch', ct', g1, g2⟩ := hheads c c0 ⟨ch, ct, q1, q2⟩
+          exact Or.inr ⟨c, ch', c0, ct', rest, q0, g1, g2, q3⟩
+    · exact List.Pairwise.nil
+    · exact (hok.sorted id n h3).transfer (fun x _ c0 h => hheads x c0 h)
+  · -- LOk.term
+    intro id n hn ht
+    rcases hcls id n hn with ⟨rfl, rfl⟩ | ⟨rfl, rfl⟩ | ⟨h1, h2, h3⟩
+    · rw [hfold id hmlt]; exact hok.term id cn hm ht
+    · simp only [if_true]
+      refine ⟨by rw [List.length_append]; omega, ?_⟩
+      obtain ⟨d, hd1, hd2⟩ := hdata
+      exact ⟨d, hd1, hd2⟩
+    · rw [hfold id h1]; exact hok.term id n h3 ht
+  · -- LOk.mono
+    intro id n c nc hn hc hnc
+    have holdkid : ∀ (n0 : LN), lh[id]? = some n0 → c ∈ n0.kids → nc.dye ≤ n0.dye := by
+      intro n0 h0 hc0
+      obtain ⟨nco, g1, _, _⟩ := hok.kid id n0 c h0 hc0
+      rw [hdyekeep c nco nc g1 hnc]
+      exact hok.mono id n0 c nco h0 hc0 g1
+    rcases hcls id n hn with ⟨rfl, rfl⟩ | ⟨rfl, rfl⟩ | ⟨h1, h2, h3⟩
+    · by_cases e : c = lh.length
+      · subst e; rw [hnew] at hnc; cases hnc; exact Nat.zero_le _
+      · exact holdkid cn hm (hkidold c hc e)
+    · simp [lleaf] at hc
+    · exact holdkid n h3 hc
   · intro id h; rw [hfold id h]; exact List.prefix_refl _
   · intro id s h1 _ h3 h4
     exact huniv s.length id s (Nat.le_refl _) h3 h1 h4
@@ -446,15 +496,15 @@ theorem get_sa_none2 {α : Type} (lh : List α) (a a2 b : α) (m id : Nat) (h1 :
   rw [List.getElem?_eq_none_iff]; simp; omega
 
 /-- the base case "split the child `c` of `cur`" -/
-theorem ins_split_post {L : Nat} {lh : LHeap} {full : Nat → Key} (hok : LOk L lh full) {cur c : Nat} {cn ch : LN}
+theorem ins_split_post {L : Nat} {E : Enc L} {lh : LHeap} {full : Nat → Key} (hok : LOk E lh full) {cur c : Nat} {cn ch : LN}
     (hcur : lh[cur]? = some cn) (hc : lh[c]? = some ch) (hck : c ∈ cn.kids) {k : Key} {i : Nat}
     (hscan : scanL lh k cn.kids 0 = .at i c (lcp ch.key k))
     (hlen : (full cur).length + k.length = L)
     (hj1 : lcp ch.key k < ch.key.length) (hj2 : lcp ch.key k < k.length)
     {tk : List Nat}
     (htk : two (k.drop (lcp ch.key k)) (ch.key.drop (lcp ch.key k)) (lh.length + 1) lh.length = some tk)
-    (data : Option Data) :
-    InsPost L lh full cur k data
+    (data : Option Data) (hdata : ∃ d, data = some d ∧ E.enc d.addr = full cur ++ k) :
+    InsPost E lh full cur k data
       ((lh ++ [{ ch with key := ch.key.drop (lcp ch.key k) }, lleaf (k.drop (lcp ch.key k)) 0 data]).set c
           { ch with key := ch.key.take (lcp ch.key k), terminal := false, kids := tk })
       (fun id => if id = c then full cur ++ ch.key.take (lcp ch.key k) else if id = lh.length then full c
@@ -556,7 +606,20 @@ theorem ins_split_post {L : Nat} {lh : LHeap} {full : Nat → Key} (hok : LOk L 
         rw [this]
     · refine ⟨nx, by rw [hold x (valid_lt g1) e]; exact g1, g2, ?_⟩
       rw [hfold x (valid_lt g1) e, g3]
-  refine ⟨⟨?_, ?_⟩, by omega, ?_, ?_, ?_, ?_, ?_, hheads, ?_⟩
+  have hdyekeep : ∀ (x : Nat) (nx nx' : LN), lh[x]? = some nx → lh'[x]? = some nx' → nx'.dye = nx.dye := by
+    intro x nx nx' h1 h2
+    by_cases e : x = c
+    · subst e
+      rw [hc] at h1; cases h1
+      rw [hc'] at h2; cases h2; rfl
+    · rw [hold x (valid_lt h1) e, h1] at h2; cases h2; rfl
+  obtain ⟨hb, ha, cbt, kat, heb, hea, hab⟩ := lcp_mismatch ch.key k hj1 hj2
+  have htk' : tk = if ha < hb then [lh.length + 1, lh.length] else [lh.length, lh.length + 1] := by
+    have := htk
+    rw [hea, heb] at this
+    simp only [two, Option.some.injEq] at this
+    exact this.symm
+  refine ⟨⟨?_, ?_, ?_, ?_, ?_⟩, by omega, ?_, ?_, ?_, ?_, ?_, hheads, ?_⟩
   · -- LOk.kid
     intro id n x hn hx
     rcases hcls id n hn with ⟨rfl, rfl⟩ | ⟨rfl, rfl⟩ | ⟨rfl, rfl⟩ | ⟨h1, h2, h3⟩
@@ -593,6 +656,48 @@ theorem ins_split_post {L : Nat} {lh : LHeap} {full : Nat → Key} (hok : LOk L 
     · rw [hfN]; exact hcd
     · rw [hfL, List.length_append]; omega
     · rw [hfold id h1 h2]; exact hok.depth id n h3
+  · -- LOk.sorted
+    intro id n hn
+    rcases hcls id n hn with ⟨rfl, rfl⟩ | ⟨rfl, rfl⟩ | ⟨rfl, rfl⟩ | ⟨h1, h2, h3⟩
+    · show SortedKids lh' tk
+      have hN : Hd lh' lh.length hb := ⟨_, cbt, hcN, heb⟩
+      have hL : Hd lh' (lh.length + 1) ha := ⟨_, kat, hlf, hea⟩
+      rw [htk']
+      unfold SortedKids
+      by_cases e : ha < hb
+      · rw [if_pos e]
+        exact List.pairwise_cons.mpr ⟨fun y hy => by
+          rw [List.mem_singleton] at hy; subst hy; exact ⟨ha, hb, hL, hN, e⟩, List.pairwise_singleton _ _⟩
+      · rw [if_neg e]
+        exact List.pairwise_cons.mpr ⟨fun y hy => by
+          rw [List.mem_singleton] at hy; subst hy; exact ⟨hb, ha, hN, hL, by omega⟩, List.pairwise_singleton _ _⟩
+    · exact (hok.sorted c ch hc).transfer (fun x _ c0 h => hheads x c0 h)
+    · exact List.Pairwise.nil
+    · exact (hok.sorted id n h3).transfer (fun x _ c0 h => hheads x c0 h)
+  · -- LOk.term
+    intro id n hn ht
+    rcases hcls id n hn with ⟨rfl, rfl⟩ | ⟨rfl, rfl⟩ | ⟨rfl, rfl⟩ | ⟨h1, h2, h3⟩
+    · cases ht
+    · rw [hfN]; exact hok.term c ch hc ht
+    · rw [hfL]
+      refine ⟨by rw [List.length_append]; omega, ?_⟩
+      obtain ⟨d, hd1, hd2⟩ := hdata
+      exact ⟨d, hd1, hd2⟩
+    · rw [hfold id h1 h2]; exact hok.term id n h3 ht
+  · -- LOk.mono
+    intro id n x nx hn hx hnx
+    rcases hcls id n hn with ⟨rfl, rfl⟩ | ⟨rfl, rfl⟩ | ⟨rfl, rfl⟩ | ⟨h1, h2, h3⟩
+    · rcases htkmem x hx with rfl | rfl
+      · rw [hcN] at hnx; cases hnx; exact Nat.le_refl _
+      · rw [hlf] at hnx; cases hnx; exact Nat.zero_le _
+    · have hx' : x ∈ ch.kids := hx
+      obtain ⟨nxo, g1, _, _⟩ := hok.kid c ch x hc hx'
+      rw [hdyekeep x nxo nx g1 hnx]
+      exact hok.mono c ch x nxo hc hx' g1
+    · simp [lleaf] at hx
+    · obtain ⟨nxo, g1, _, _⟩ := hok.kid id n x h3 hx
+      rw [hdyekeep x nxo nx g1 hnx]
+      exact hok.mono id n x nxo h3 hx g1
   · intro id h
     by_cases e : id = c
     · subst e; rw [hfc, hP]
@@ -673,12 +778,12 @@ theorem two_some {a b : Nat} {as bs : Key} (x y : Nat) : ∃ tk, two (a :: as) (
 
 /-- **`insertL` (the read-through cache insertion), for fixed-length keys**: it succeeds (no panic, none of the
     "proper prefix" shapes), keeps the heap well-formed and satisfies `InsPost` -/
-theorem insertL_spec {L : Nat} : ∀ (fuel : Nat) (lh : LHeap) (full : Nat → Key) (cur : Nat) (key : Key) (data : Option Data),
-    LOk L lh full → (∃ cn, lh[cur]? = some cn) → (full cur).length + key.length = L → key ≠ [] → key.length < fuel →
-    look lh cur key = .ok none →
-    ∃ lh' full', insertL fuel lh cur key data = some lh' ∧ InsPost L lh full cur key data lh' full'
-  | 0, _, _, _, _, _, _, _, _, _, hf, _ => by omega
-  | f + 1, lh, full, cur, key, data, hok, ⟨cn, hcur⟩, hlen, hne, hf, hmiss => by
+theorem insertL_spec {L : Nat} {E : Enc L} : ∀ (fuel : Nat) (lh : LHeap) (full : Nat → Key) (cur : Nat) (key : Key) (data : Option Data),
+    LOk E lh full → (∃ cn, lh[cur]? = some cn) → (full cur).length + key.length = L → key ≠ [] → key.length < fuel →
+    look lh cur key = .ok none → (∃ d, data = some d ∧ E.enc d.addr = full cur ++ key) →
+    ∃ lh' full', insertL fuel lh cur key data = some lh' ∧ InsPost E lh full cur key data lh' full'
+  | 0, _, _, _, _, _, _, _, _, _, hf, _, _ => by omega
+  | f + 1, lh, full, cur, key, data, hok, ⟨cn, hcur⟩, hlen, hne, hf, hmiss, hdata => by
     cases key with
     | nil => exact absurd rfl hne
     | cons k0 kt =>
@@ -689,7 +794,7 @@ theorem insertL_spec {L : Nat} : ∀ (fuel : Nat) (lh : LHeap) (full : Nat → K
     | none h e =>
       rw [e]
       simp only
-      exact ⟨_, _, rfl, ins_leaf_post hok hcur (pre := cn.kids) (post := []) (by simp) h (Or.inl rfl) hlen data⟩
+      exact ⟨_, _, rfl, ins_leaf_post hok hcur (pre := cn.kids) (post := []) (by simp) h (Or.inl rfl) hlen data hdata⟩
     | before pre c post ch c0 ct hk hp h1 h2 h3 e =>
       rw [e]
       simp only
@@ -698,7 +803,7 @@ theorem insertL_spec {L : Nat} : ∀ (fuel : Nat) (lh : LHeap) (full : Nat → K
       have hins : insAt cn.kids (0 + pre.length) lh.length = pre ++ lh.length :: c :: post := by
         rw [hk]; unfold insAt; simp
       rw [hins]
-      exact ⟨_, _, rfl, ins_leaf_post hok hcur hk hp (Or.inr ⟨c, ch, c0, ct, post, rfl, h1, h2, h3⟩) hlen data⟩
+      exact ⟨_, _, rfl, ins_leaf_post hok hcur hk hp (Or.inr ⟨c, ch, c0, ct, post, rfl, h1, h2, h3⟩) hlen data hdata⟩
     | hit pre c post ch ct hk hp h1 h2 e =>
       rw [e]
       simp only
@@ -733,7 +838,7 @@ theorem insertL_spec {L : Nat} : ∀ (fuel : Nat) (lh : LHeap) (full : Nat → K
             ⟨ch, h1⟩ (by rw [g3, List.length_append, List.length_drop, hj]; omega)
             (by intro h0; have := congrArg List.length h0; rw [List.length_drop] at this
                 simp only [List.length_nil] at this; omega)
-            (by rw [List.length_drop]; omega) hmiss'
+            (by rw [List.length_drop]; omega) hmiss' (by rw [hK]; exact hdata)
           refine ⟨lh', full', r1, ?_⟩
           have hcurnot : ¬ (full c <+: full cur) := by
             intro h; have := h.length_le; rw [g3, List.length_append] at this; omega
@@ -773,6 +878,6 @@ theorem insertL_spec {L : Nat} : ∀ (fuel : Nat) (lh : LHeap) (full : Nat → K
             (lh.length + 1) lh.length = some tk := by rw [ea, eb]; exact two_some _ _
         rw [htk]
         simp only
-        exact ⟨_, _, rfl, ins_split_post hok hcur h1 hcmem e hlen hj1 hj2 htk data⟩
+        exact ⟨_, _, rfl, ins_split_post hok hcur h1 hcmem e hlen hj1 hj2 htk data hdata⟩
 
 end LemoProofs.CowHeapL
